@@ -15,3 +15,10 @@ Lemma tie_rot_steps :
   rot_sign_from_components_applied_to_both = true /\ rot_sort_all_mode_arrays = true /\
   rot_expvar_is_sum_abs2_over_features = true /\ rot_inv_trans_threshold_power = 1%Z.
 Proof. repeat split; reflexivity. Qed.
+
+(* the cross-set rotator: steps of the stored scores in fit and of transform, per field (Gen/T5rot.v) *)
+Lemma tie_cross_rotator_steps :
+  cpcca_rot_fit_score_steps = [FDivSqrtSvals; FRotate; FMulNorm; FMulSign] /\
+  cpcca_rot_transform_steps = [XProject; XDivSqrtSvals; XRotate; XSortIfSorted; XMulSign; XMulNormUnlessNormalized; XBackWithOwnPreprocessor] /\
+  cpcca_rot_transform_fields = [("X", "components1", "norm1", "preprocessor1"); ("Y", "components2", "norm2", "preprocessor2")]%string.
+Proof. repeat split; reflexivity. Qed.
